@@ -2,7 +2,8 @@ use super::{DataType, Entry, GlobalEntry, GlobalTable, LookupTable, SymbolTable}
 use crate::{
     ast::{
         ArrayAccess, Assignment, BinaryExpression, BlockStatement, CallStatement, Expression,
-        GlobalDeclaration, IfStatement, Program, Statement, Variable, WhileStatement,
+        GlobalDeclaration, IfStatement, Program, Statement, UnaryExpression, Variable,
+        WhileStatement,
     },
     error::{SemanticErrorMessage, SplError},
     Shiftable, ToRange,
@@ -279,10 +280,24 @@ impl AnalyzeExpression for Expression {
             Self::IntLiteral(_) => Some(DataType::Int),
             Self::Variable(v) => v.analyze(table),
             Self::Binary(b) => b.analyze(table),
-            Self::Unary(u) => u.expr.analyze(table),
+            Self::Unary(u) => u.analyze(table),
             Self::Bracketed(b) => b.expr.analyze(table),
             Self::Error(_) => None,
         }
+    }
+}
+
+impl AnalyzeExpression for UnaryExpression {
+    fn analyze(&mut self, table: &LookupTable) -> Option<DataType> {
+        let expr_type = self.expr.analyze(table);
+        if matches!(&expr_type, Some(expr_type) if expr_type != &DataType::Int) {
+            self.info.append_error(SplError(
+                self.to_range(),
+                SemanticErrorMessage::ArithmeticOperatorNonInteger.into(),
+            ));
+        }
+        // the only unary operator is the arithmetic negation
+        Some(DataType::Int)
     }
 }
 
